@@ -125,6 +125,24 @@ func EnvStubs(st map[string]StubFn) {
 		r.Effects = append(r.Effects, Effect{Op: "WriteFile", Args: []value{a[0], bytesToStr(a[1]), a[2]}})
 		return r.nondetErr("WriteFile.err")
 	}
+	// Reading a file: arbitrary failure or arbitrary content. Recorded as a "read:" effect (a read
+	// modifies nothing), so that a harness can still see which path was consulted.
+	st["os.ReadFile"] = func(r *Run, fr *frame, fn *ssa.Function, a []value) value {
+		r.Effects = append(r.Effects, Effect{Op: "read:ReadFile", Args: []value{a[0]}})
+		err := r.nondetErr("ReadFile.err")
+		if !err.(iface).isNil() {
+			return tuple{[]value(nil), err}
+		}
+		return tuple{symBytes{r.newInput(r.freshName("fs.content"), SStr)}, iface{}}
+	}
+	// bytes.Equal is string equality; bytes.TrimSpace is an uninterpreted function of its argument
+	// (sound for "may differ / may coincide" questions: the solver may choose any trimming).
+	st["bytes.Equal"] = func(r *Run, fr *frame, fn *ssa.Function, a []value) value {
+		return Eq(strTermOf(bytesToStr(a[0])), strTermOf(bytesToStr(a[1])))
+	}
+	st["bytes.TrimSpace"] = func(r *Run, fr *frame, fn *ssa.Function, a []value) value {
+		return symBytes{UF("bytes.TrimSpace", SStr, strTermOf(bytesToStr(a[0])))}
+	}
 	st["os.Getenv"] = func(r *Run, fr *frame, fn *ssa.Function, a []value) value {
 		k, _ := a[0].(string)
 		if v, ok := r.Env["env:"+k]; ok {
@@ -368,3 +386,13 @@ func EnvStubs(st map[string]StubFn) {
 }
 
 var _ = types.Typ
+
+func strTermOf(v value) *Term {
+	switch x := v.(type) {
+	case *Term:
+		return x
+	case string:
+		return StrT(x)
+	}
+	panic(unsupported(fmt.Sprintf("strTermOf(%T)", v)))
+}
